@@ -20,6 +20,7 @@ Cfgs ==
     [] CfgSet = "integ"  -> {C("avg", sg, TRUE, None, 8, "scalar") : sg \in {Lin, <<0, 1>>, <<1, 2>>, <<1, 1>>}} \cup
                             {C("sum", sg, pt, None, 8, "scalar") : sg \in {Lin, <<0, 1>>, <<1, 2>>, <<3, 4>>}, pt \in BOOLEAN}
     [] CfgSet = "integgrid" -> {C("avg", Lin, TRUE, None, 16, "grid"), C("sum", <<0, 1>>, TRUE, None, 16, "grid")}
+    [] CfgSet = "stack"  -> {C("stack", Lin, FALSE, l, 16, "grid") : l \in {None, 16}}     \* (StackTime refuses NoGrid data with several time entries)
     [] CfgSet = "spill"  -> {C(k, sg, TRUE, l, 8, "scalar") :
                                k \in {"next", "prev", "linear", "step", "avg", "sum"}, sg \in {<<1, 2>>}, l \in {0, 8, 20}}
     [] CfgSet = "spillmasked" -> {C(k, <<1, 2>>, TRUE, l, 16, "masked") :
